@@ -1012,7 +1012,20 @@ func printHead(sb *strings.Builder, t *Term, emit func(*Term)) {
 // Script renders assertions as a self-contained SMT-LIB2 script body
 // (declarations, shared-node definitions, asserts). It returns the script and
 // the input variables occurring in it.
+type SelRef struct {
+	Arr string // input array variable name
+	Idx string // SMT name or literal of the index
+	Sel string // SMT name of the select term
+}
+
+var lastSelRefs []SelRef
+
 func Script(asserts []*Term, extraDecl []string) (string, []*Term) {
+	s, in, _ := ScriptSel(asserts, extraDecl)
+	return s, in
+}
+
+func ScriptSel(asserts []*Term, extraDecl []string) (string, []*Term, []SelRef) {
 	// gather cone (including axioms of variables)
 	refs := map[int]int{}
 	var order []*Term
@@ -1109,11 +1122,22 @@ func Script(asserts []*Term, extraDecl []string) (string, []*Term) {
 		}
 		printHead(&sb, t, emit)
 	}
+	force := map[int]bool{}
+	var selTerms []*Term
+	for _, t := range order {
+		if t.Op == OpSelect && t.Args[0].Op == OpVar && t.Args[0].Input && !dep[t.ID] {
+			force[t.ID] = true
+			if len(t.Args[1].Args) > 0 {
+				force[t.Args[1].ID] = true
+			}
+			selTerms = append(selTerms, t)
+		}
+	}
 	for _, t := range order {
 		if len(t.Args) == 0 || dep[t.ID] {
 			continue
 		}
-		if refs[t.ID] > 1 || t.Op == OpStore || t.Op == OpLambda {
+		if refs[t.ID] > 1 || t.Op == OpStore || t.Op == OpLambda || force[t.ID] {
 			name := fmt.Sprintf("t%d", t.ID)
 			fmt.Fprintf(&sb, "(define-fun %s () %s ", name, sortOf(t))
 			printHead(&sb, t, emit)
@@ -1126,7 +1150,17 @@ func Script(asserts []*Term, extraDecl []string) (string, []*Term) {
 		emit(r)
 		sb.WriteString(")\n")
 	}
-	return sb.String(), inputs
+	var sels []SelRef
+	for _, t := range selTerms {
+		var ib strings.Builder
+		if n, ok := named[t.Args[1].ID]; ok {
+			ib.WriteString(n)
+		} else {
+			printHead(&ib, t.Args[1], func(a *Term) { printHead(&ib, a, nil) })
+		}
+		sels = append(sels, SelRef{Arr: t.Args[0].Name, Idx: ib.String(), Sel: named[t.ID]})
+	}
+	return sb.String(), inputs, sels
 }
 
 // printSpecial renders the built-in floating point helper applications.
